@@ -451,7 +451,7 @@ impl Scn<'_> {
     self.out.emit("events", &evs);
     let ctx = Ctx { ix: &self.ix, node: &self.node, g: &self.g, flags: self.flags, chain: "regtest", case: self.case, rows: &rows, secs: env::sections(&rows), events: &evs, first_new_height: h };
     probe(&mut self.ps, &ctx, true, self.out, self.dist);
-    self.out.emit(&format!("index.oracle.nofail {} {h}", self.case), "true");
+    self.out.emit(&format!("index.oracle.nofail {} {h} ok", self.case), "true");
     self.dist.hit("scn_block");
     ids
   }
